@@ -46,6 +46,10 @@ package interpreter
 //@ ifaces ^interpreter\.config\.
 //@   pure
 
+// the opcode parser builds new parsed scripts / byte strings and writes nothing that existed before the call
+//@ ifaces ^interpreter\.OpcodeParser\.
+//@   pure
+
 // opcode handlers are called through opcode.exec; functional options through ExecutionOptionFunc
 //@ sig handler "func(*interpreter.ParsedOpcode, *interpreter.thread) error"
 //@   opt params op t
@@ -125,3 +129,45 @@ package interpreter
 //@   loop 0 decreases (bigval cpy)
 //@ func interpreter.(*stack).PushInt
 //@   requires (spec.wf_num n)
+
+//@ func interpreter.shiftLeft
+//@   requires (>= n 0)
+//@ func interpreter.shiftRight
+//@   requires (>= n 0)
+
+//@ func interpreter.(*thread).validPC
+//@   ensures[validpc] (=> (= err nil) (and (< (. t scriptIdx) (len (. t scripts))) (< (. t scriptOff) (len (at (. t scripts) (. t scriptIdx))))))
+
+//@ func interpreter.(*stack).Depth
+//@   pure
+//@   ensures[depth] (= result (len (. s stk)))
+
+//@ func interpreter.opcodeNum2bin
+//@   loop 0 decreases (- (bigval (. n val)) (len b))
+
+//@ func interpreter.createThread
+//@   ensures[create] (=> (= err nil) (and (not (nil? result)) (spec.wf_thread result)))
+//@ func interpreter.(*thread).apply
+//@   opt nopattern 1
+//@   requires (not (nil? (. t cfg))) (not (nil? (. t scriptParser)))
+//@   ensures[apply_wf] (=> (= err nil) (spec.wf_thread t))
+//@ func interpreter.(*thread).execute$1
+//@   requires (spec.wf_thread (deref t))
+
+//@ func interpreter.(*scriptNumber).Int64
+//@   pure
+//@   ensures[C05.num_int64] (= result (spec.clamp64 (bigval (. n val))))
+//@ func interpreter.(*scriptNumber).Int32
+//@   pure
+//@   ensures[C05.num_int32] (= result (spec.clamp32 (bigval (. n val))))
+//@ func interpreter.(*scriptNumber).Int
+//@   pure
+//@   ensures[num_int_inrange] (=> (and (<= (- 9223372036854775808) (bigval (. n val))) (<= (bigval (. n val)) 9223372036854775807)) (= result (bigval (. n val))))
+
+// API precondition: every functional option passed to Execute is a non-nil function
+//@ func interpreter.(*engine).Execute
+//@   requires (forall ((k Int)) (=> (and (<= 0 k) (< k (len oo))) (not (nil? (at oo k)))))
+
+//@ func interpreter.(*DefaultOpcodeParser).Parse
+//@   loop 0 invariant (<= 0 i)
+//@   loop 0 decreases (- (len script) i)
